@@ -47,3 +47,61 @@ Definition jpeg_write_icc_profile_api (global_state next_scanline : Z) (p : list
         end
       else WBadState
   end.
+
+(* ---- the whole header of each output of tj3Transform ---- *)
+(* jctrans.c jpeg_copy_critical_parameters: JFIF version / density of the destination *)
+Definition copy_jfif (h : hinfo) : jfif :=
+  if h_saw_jfif h then
+    mkJfif (if h_major h =? 1 then h_major h else 1) (if h_major h =? 1 then h_minor h else 1) (h_unit h) (h_xd h) (h_yd h)
+  else mkJfif 1 1 0 1 1.
+(* the markers write_file_header emits, as segments *)
+Definition lib_segs (cs : cspace) (j : jfif) : list segment :=
+  (if writes_jfif cs then [(M_APP0, jfif_data j)] else []) ++ (if writes_adobe cs then [(M_APP14, adobe_data cs)] else []).
+
+(* bytes from SOI up to the first table marker, for every transform of one call; cs = JPEG colourspace of the source *)
+Definition tj_transform_multi_bytes (sm : Z) (flags : list bool) (cs : cspace) (fuel : nat)
+  (src_after_soi : list Z) (icc_buf : list Z) : option (list (option (list Z))) :=
+  match read_app_markers fuel (copy_setup (tj_multi_setup_option sm flags) cfg_init) hinfo_init [] src_after_soi with
+  | None => None
+  | Some (h, ms, _) =>
+      Some (map (fun cn => match write_markers (tj_transform_extras sm cn (writes_jfif cs) (writes_adobe cs) ms icc_buf) with
+                           | Some b => Some (emit_file_header cs (copy_jfif h) ++ b)
+                           | None => None
+                           end) flags)
+  end.
+
+(* turbojpeg.c tj3TransformBufSize: what is added to tj3JPEGBufSize for the ICC profile.
+   temp_size / temp_markers: profile extracted by tj3DecompressHeader and the number of APP2 markers carrying it *)
+Definition tj_bufsize_icc (sm : Z) (copynone : bool) (temp_size temp_markers inst_size : Z) : Z :=
+  if ((sm =? 2) || (sm =? 4)) && negb copynone && negb (temp_size =? 0) then temp_size + TJ_BUFSIZE_ICC_PER_MARKER * temp_markers
+  else if negb (inst_size =? 0) then
+    inst_size + TJ_BUFSIZE_ICC_PER_MARKER * (inst_size / TJ_BUFSIZE_ICC_CHUNK + (if inst_size mod TJ_BUFSIZE_ICC_CHUNK =? 0 then 0 else 1))
+  else 0.
+
+(* ---- the piecemeal marker API: jpeg_write_m_header then exactly datalen calls of jpeg_write_m_byte ----
+   libjpeg.txt: "jpeg_write_m_header() ... then jpeg_write_m_byte() exactly datalen times"; jpeg_write_m_byte has no state
+   check of its own (before jpeg_start_compress cinfo->marker is not even allocated).  The documented precondition
+   is made explicit: a byte may be written only while the byte budget of an open header is not exhausted, and a new
+   marker may be started only when the previous budget is used up.  None = precondition violated or ERREXIT. *)
+Inductive mcall := CHeader (marker datalen : Z) | CByte (v : Z) | CMarker (s : segment).
+Record mapi := mkMapi { ma_open : Z; ma_out : list Z }.
+Definition mapi_step (gs ns : Z) (st : mapi) (c : mcall) : option mapi :=
+  match c with
+  | CHeader m n =>
+      if negb (ma_open st =? 0) then None
+      else if marker_write_allowed gs ns then
+        match write_marker_header m n with
+        | Some h => Some (mkMapi n (ma_out st ++ h))
+        | None => None
+        end
+      else None
+  | CByte v => if 0 <? ma_open st then Some (mkMapi (ma_open st - 1) (ma_out st ++ [byte_of v])) else None
+  | CMarker s =>
+      if negb (ma_open st =? 0) then None
+      else match jpeg_write_marker_api gs ns s with WOk b => Some (mkMapi 0 (ma_out st ++ b)) | _ => None end
+  end.
+Fixpoint mapi_run (gs ns : Z) (st : mapi) (cs : list mcall) : option mapi :=
+  match cs with
+  | [] => Some st
+  | c :: r => match mapi_step gs ns st c with Some st' => mapi_run gs ns st' r | None => None end
+  end.
